@@ -377,7 +377,7 @@ func checkFilterProcessorPairs(p *Prog, r *Report) {
 			}
 			r.Check(okS, "C03.R2", key+"/probe", pos, "the SYN scan probe carries exactly the SYN flag", whyS)
 		} else {
-			r.OK("C03.R2", key+"/probe", pos, "probe flags of non-SYN scans are decided by C05/C18 tables")
+			r.OK("C03.R2", key+"/probe", pos, "probe flags of non-SYN scans are decided by C05/C18 tables").Nontrivial = false
 		}
 	}
 }
